@@ -524,7 +524,8 @@ def observe(ctx, mtype, body, neg, name, L=None):
     stage = 'decode'
     msg = None
     exc = None
-    meter = Meter(cap=STEP_CAP)
+    limit = STEPS_PER_BYTE * L + STEPS_BASE
+    meter = Meter(cap=min(STEP_CAP, limit))     # a path is cut as soon as it passes the linear bound
     try:
         with meter:
             msg = Message.unpack(mtype, body, neg)
@@ -561,7 +562,6 @@ def observe(ctx, mtype, body, neg, name, L=None):
         out = ('decoded', shape)
         if not ctx.sym:
             ctx.witness_check('api-renders', lambda: api_render(msg, neg, body), sig='C03:%s:api-render-raises' % name, info={'body': body})
-    limit = STEPS_PER_BYTE * L + STEPS_BASE
     ctx.check('bounded-work', meter.steps <= limit, sig='C03:%s:work-not-linear' % name, info={'body': body, 'steps': meter.steps, 'limit': limit, 'top': meter.top(4)})
     return out
 
@@ -1070,6 +1070,20 @@ def nlri_plans(th=False):
             plans.append(Plan('nexthop:%s-%s%s' % (afi_, safi_, '' if sess == 'asn4' else ':extended-next-hop-session'),
                               lambda F, L, a=a, s=s, one=one: upd_reach(a, s, one, F.sym('nh', L)), top=44, keep=8, sess=(sess,),
                               cover=('refused',) if not one else ('decoded', 'refused'), group='nexthop:%s%s' % (afi_, '' if sess == 'asn4' else ':extended')))
+    # a well-formed MP_REACH of every family (next hop symbolic) cut after every octet of its value
+    for afi_, safi_ in families():
+        a, s = int(afi_), int(safi_)
+        if (a, s) in UNCONFIGURABLE:
+            continue
+        nhc = family_nexthop(a, s)
+        one = {1: [24, 10, 0, 0], 2: [32, 0x20, 1, 0x0d, 0xb8]}.get(a) if s in (1, 2) else [0, 0, 0]
+        full_len = 4 + len(nhc) + 1 + len(one)
+
+        def b_cut(F, L, a=a, s=s, nhc=nhc, one=one):
+            rd = len(nhc) - len([x for x in nhc[8:]]) if len(nhc) in (12, 24) else 0
+            full = be(a, 2) + [s, len(nhc)] + nhc[:rd] + F.sym('nh', len(nhc) - rd) + [0] + one
+            return K.body([], BASE_ATTRS + [tlv(0x80, 14, full[:L])], [])
+        plans.append(Plan('mp-reach-cut:%s-%s' % (afi_, safi_), b_cut, top=full_len, keep=64, base=tuple(range(0, full_len + 1)), group='mp-reach-cut:%s' % afi_))
     # a family that is registered but not negotiated, and one that is not registered at all
     plans.append(Plan('family:not-negotiated', lambda F, L: upd_reach(*F.pick('fam', sorted(UNCONFIGURABLE)), F.sym('n', L), nh=[192, 0, 2, 1]), top=6, cover=('refused',)))
     # a family nobody registered (AFI/SAFI concrete: the registry key is a rendered name, a symbolic one would be sampled)
